@@ -56,14 +56,14 @@ package nbs
 //@ func (onHeapTableIndex).entrySuffixMatches
 //@   property C01
 //@   nopanic
-//@   requires verif_wf_index(ti) && idx < ti.count && verif_ord(ti, idx) < ti.count
+//@   requires verif_wf_index(ti) && idx < ti.count && verif_ord(ti, idx) < ti.count && h != nil
 //@   ensures  result0 == verif_sfxmatch(ti, verif_ord(ti, idx), h) && result1 == nil
 //@   modifies nothing
 
 //@ func (onHeapTableIndex).lookupOrdinal
 //@   property C01
 //@   nopanic
-//@   requires verif_wf_index(ti) && verif_sorted(ti) && verif_ords_ok(ti)
+//@   requires verif_wf_index(ti) && verif_sorted(ti) && verif_ords_ok(ti) && h != nil
 //@   ensures  result1 == nil
 //@   ensures  result0 != ti.count ==> exists k in 0..int(ti.count): verif_present(ti, h, uint32(k)) && result0 == verif_ord(ti, uint32(k))
 //@   ensures  result0 == ti.count ==> forall k in 0..int(ti.count): !verif_present(ti, h, uint32(k))
@@ -445,7 +445,7 @@ package nbs
 // the prefix tuples, so with only the parser-established facts the suffix lookup can index out of range.
 //@ lemma verif_lemma_c10_suffix_any_index
 //@   property C10
-//@   requires verif_wf_index(ti) && idx < ti.count
+//@   requires verif_wf_index(ti) && idx < ti.count && h != nil
 
 // hash.MaybeParse validates its input with a regular expression before decoding 32 base32 characters into
 // 20 bytes; that it never panics is assumed (regexp and base32 are outside the verified subset).
